@@ -159,8 +159,7 @@ def run_case(case):
 def floors(agg):
     c = agg["counters"]
     out = []
-    for k in ["opt_" + o for o in BOOL_OPTS] + ["cli_runs", "evidence_style_1", "evidence_style_2", "reach:formula:LogicFormula.propagate",
-                                                  "reach:formula:LogicFormula.set_evidence_value"]:
+    for k in ["opt_" + o for o in BOOL_OPTS] + ["cli_runs", "evidence_style_1", "evidence_style_2", "reach:formula:LogicFormula.propagate"]:
         if not c.get(k):
             out.append("monitor %s is zero" % k)
     return out
